@@ -335,7 +335,7 @@ m("c15-seglog-before-in-memory", "C15", "nomt/src/rollback/mod.rs",
 m("c15-drop-read-guard-in-read", "C15", "nomt/src/lib.rs",
   "        let _guard = self.access_lock.read();\n        self.store.load_value(path)",
   "        self.store.load_value(path)",
-  None)  # reported-not-required per DESIGN (a single lookup is atomic under Tree.shared): silent
+  "C15|L8|Nomt::read|read-under-access-guard")  # was expected silent (a single lookup is atomic under Tree.shared) until seed C15-n showed the observable: root() of commit n, read(k) of commit n-1
 m("c15-delta-builder-before-guard", "C15", "nomt/src/lib.rs",
   "        let access_guard = params\n            .take_global_guard\n            .then(|| RwLock::read_arc(&self.access_lock));\n\n        let store = self.store.clone();\n        let rollback_delta = if params.record_rollback_delta {\n            self.store\n                .rollback()\n                .map(|r| r.delta_builder(&store, &live_overlay))\n        } else {\n            None\n        };\n",
   "        let store = self.store.clone();\n        let rollback_delta = if params.record_rollback_delta {\n            self.store\n                .rollback()\n                .map(|r| r.delta_builder(&store, &live_overlay))\n        } else {\n            None\n        };\n        let access_guard = params\n            .take_global_guard\n            .then(|| RwLock::read_arc(&self.access_lock));\n",
